@@ -99,10 +99,10 @@ def pstep [DecidableEq ι] (hf : ι → Nat → Option (Nat × Nat)) (p : PGhost
   | .setop op v u =>
     match w.filters v, w.filters u, p.vi v, out with
     | some f, some f', some i, .nat _ =>
+      -- the source's recorded items count only if the source view still agrees with the header of its memory
+      let su := if agrees w f' then (p.si (keyOf u f')).S else []
       let (p1, keep) := p.write w v f i
       let kv := keyOf v f
-      -- the source's recorded items count only if the source view still agrees with the header of its memory
-      let su := if agrees w f' then (p1.si (keyOf u f')).S else []
       match op with
       | .union =>
         if keep then
